@@ -5,9 +5,12 @@ PROP = dict(
     level_text="rapid generates workloads of 2-8 client goroutines x 10-40 operations with generated pre-delays (Gosched counts, "
                "40-200 us sleeps), GOMAXPROCS in {1,2,4,16} and snapshot thresholds in {2,5,20,default}. Fragment level: setBit, "
                "clearBit, bulkImport, importRoaring (set/clear), setRow, clearRow, row, rows(column filter), top, top(ids), Blocks, "
-               "Snapshot, FlushCache, minRow, maxRow on 1-2 fragments sharing a 2-worker snapshot queue, universe 2 rows x 4 columns. "
+               "Snapshot, FlushCache, minRow, maxRow on 1-2 fragments (set, mutex or bool: for the latter two the model is column -> at most "
+               "one row, last linearized write wins, and no column may end with two rows) sharing a 2-worker snapshot queue, universe 2 rows x 4 columns. "
                "API level: Set/Clear/Row/Rows/Store/ClearRow/Count/TopN/Sum, Import, ImportRoaring, RecalculateCaches on a set field, "
-               "a time field (views created on the fly) and an int field over 2 shards; every workload opens with a burst in which all clients, "
+               "a time field (views created on the fly), a mutex, a bool and an int field over 2 shards; 4 fresh keyed indexes per workload on which all "
+               "clients at once Set their own first-ever column key and row key (distinct keys must get distinct ids, both translate directions and "
+               "Row(kf=key) must agree); every workload opens with a burst in which all clients, "
                "released by a spin barrier, send the first write to the same fragment-less shard of a fresh field (2-6 shards in turn) or to a time "
                "view nobody used before, and later requests keep touching further fresh shards; any error returned by a valid request fails the run. The binaries are built with -race: any data "
                "race, panic or failed request fails the run. Each call is stamped with an atomic counter at invocation and response; "
@@ -19,7 +22,9 @@ PROP = dict(
     level_note="Schedules cannot be enumerated; failures are schedule dependent and do not shrink (the failure message carries the full "
                "stamped history). At fragment level top(ids) (one count read per row), minRow/maxRow and the Blocks checksum are "
                "constrained too; results of TopN/top(n) (the ranked cache is refreshed every 10 s by design), Count, Sum and the "
-               "changed flag of multi-shard or multi-view requests are exercised but not constrained. A workload that does not finish within 180/300 s ends the run as inconclusive with a goroutine dump. "
+               "changed flag of multi-shard or multi-view requests are exercised but not constrained. A workload that does not finish is reported as a deadlock only when provably permanent (twice, 2 s apart: no call completed, every "
+               "goroutine inside pilosa code parked at the same place on a channel/select/condition variable, at least one in sync.Cond.Wait); "
+               "otherwise the run ends inconclusive after 180/300 s with a goroutine dump. "
                "Single node, in-process API (no HTTP layer).",
     rule="one evaluation = one generated workload (clients x operations x delays x GOMAXPROCS x snapshot threshold); distinct = hash of the "
          "whole plan. non-trivial = on some object two operations of different clients overlap in time and at least one is a write.",
